@@ -71,3 +71,11 @@ def csv_uint64_beyond_int64(rec):
     if rec.get("property") != "C13" or not rec.get("what", "").startswith("F-C13f:"):
         return False
     return any(t in ("uint", "int") and any(isinstance(v, int) and v >= 2 ** 63 for v in vals) for _, t, vals in _cols(rec))
+
+
+def csv_column_named_like_numpy_excludelist(rec):
+    """F-C13g: a csv column whose name is exactly 'file', 'print' or 'return' (the fixed `excludelist` of numpy's NameValidator,
+    which cannot be switched off through np.genfromtxt) comes back with '_' appended."""
+    if rec.get("property") != "C13" or not rec.get("what", "").startswith("F-C13g:"):
+        return False
+    return any(nm in ("file", "print", "return") for nm, _, _ in _cols(rec))
